@@ -90,6 +90,18 @@ def sym_elem(base, idx):
     return Lin.sym(name)
 
 
+def lsubst(x, mapping):
+    """``x.subst(mapping)`` that also reaches loop variables inside element symbols (``fh[@j]`` with j -> value)."""
+    if not isinstance(x, Lin):
+        return x.subst(mapping)
+    out = x.subst(mapping)
+    for s_, c_ in list(out.terms.items()):
+        d = SYMDEFS.get(s_)
+        if d is not None and d[0] == "elem" and (d[2].symbols() & set(mapping)):
+            out = out - Lin({s_: c_}) + sym_elem(d[1], lsubst(d[2], mapping)).scale(c_)
+    return out
+
+
 def mul_lin(a, b):
     """Product of two affine forms (a derived symbol unless one side is constant)."""
     if a.is_const():
@@ -389,21 +401,21 @@ class Store:
 def subst_val(v, mapping):
     """Substitute loop variables in an abstract value."""
     if isinstance(v, Lin):
-        return v.subst(mapping)
+        return lsubst(v, mapping)
     if isinstance(v, Elem):
-        return Elem(v.arr, [c.subst(mapping) for c in v.coords],
-                    [w.subst(mapping) if w is not None else None for w in v.wraps], v.kw)
+        return Elem(v.arr, [lsubst(c, mapping) for c in v.coords],
+                    [lsubst(w, mapping) if w is not None else None for w in v.wraps], v.kw)
     if isinstance(v, Opq):
         return Opq(v.tag, [subst_val(a, mapping) for a in v.args])
     if isinstance(v, Vec):
-        return Vec(v.base, v.off.subst(mapping), v.sorted, v.neg)
+        return Vec(v.base, lsubst(v.off, mapping), v.sorted, v.neg)
     if isinstance(v, View):
-        return v.subst(mapping)
+        return lsubst(v, mapping)
     if isinstance(v, ItemV):
-        return ItemV(v.lst, v.idx.subst(mapping))
+        return ItemV(v.lst, lsubst(v.idx, mapping))
     if isinstance(v, CallV):
         return CallV(v.kind, subst_val(v.recv, mapping), [subst_val(a, mapping) for a in v.args], v.node, v.loops,
-                     {k: x.subst(mapping) for k, x in v.binding.items()}, v.seq, v.atoms)
+                     {k: lsubst(x, mapping) for k, x in v.binding.items()}, v.seq, v.atoms)
     if isinstance(v, Flat):
         b = subst_val(v.base, mapping)
         return Flat(b, v.keep, v.order) if b is not v.base else v
@@ -442,7 +454,7 @@ class Buf(Nd):
                     lo, hi, pt = b[0], b[1], b[2]
                     if len(b) > 3:
                         continue
-                    lo_m = lo.subst(mapping)
+                    lo_m = lsubst(lo, mapping)
                     if pt and lo_m.terms.get(v) in (1, -1):
                         coef = lo_m.terms[v]
                         rest = lo_m - Lin({v: coef})
@@ -453,9 +465,9 @@ class Buf(Nd):
                 if not solved:
                     return None
                 if desc:
-                    r = q.inrange(mapping[v], lp.it.hi.subst(mapping) + 1, lp.it.lo.subst(mapping) + 1)
+                    r = q.inrange(mapping[v], lsubst(lp.it.hi, mapping) + 1, lsubst(lp.it.lo, mapping) + 1)
                 else:
-                    r = q.inrange(mapping[v], lp.it.lo.subst(mapping), lp.it.hi.subst(mapping))
+                    r = q.inrange(mapping[v], lsubst(lp.it.lo, mapping), lsubst(lp.it.hi, mapping))
                 if r is False:
                     return "miss"
                 if r is None:
@@ -479,9 +491,9 @@ class Buf(Nd):
     def _lookup_box(self, st, coords, q, mapping):
         unknown = False
         for d, b in enumerate(st.box):
-            lo, hi = b[0].subst(mapping), b[1].subst(mapping)
+            lo, hi = lsubst(b[0], mapping), lsubst(b[1], mapping)
             if len(b) > 3:
-                lo = wrap_index(lo, b[3].subst(mapping), q)
+                lo = wrap_index(lo, lsubst(b[3], mapping), q)
                 if lo is None:
                     return None
                 hi = lo + 1
@@ -500,9 +512,9 @@ class Buf(Nd):
                 return None
             vc = []
             for vd, td in zip(range(k), sd[len(sd) - k:]):
-                c = coords[td] - st.box[td][0].subst(mapping)
+                c = coords[td] - lsubst(st.box[td][0], mapping)
                 one = q.eq(val.shape[vd], ONE)
-                tgt_one = q.eq(st.box[td][1].subst(mapping) - st.box[td][0].subst(mapping), ONE)
+                tgt_one = q.eq(lsubst(st.box[td][1], mapping) - lsubst(st.box[td][0], mapping), ONE)
                 if one is True and tgt_one is not True:
                     c = ZERO  # broadcast of a length-1 axis
                 vc.append(c)
@@ -548,9 +560,9 @@ class Buf(Nd):
             if lp.var is None or not isinstance(lp.it, Rng):
                 raise Uneval("loop")
             v = list(lp.var.symbols())[0]
-            lo = q.env.eval(lp.it.lo.subst(mapping))
-            hi = q.env.eval(lp.it.hi.subst(mapping))
-            step = q.env.eval(lp.it.step.subst(mapping))
+            lo = q.env.eval(lsubst(lp.it.lo, mapping))
+            hi = q.env.eval(lsubst(lp.it.hi, mapping))
+            step = q.env.eval(lsubst(lp.it.step, mapping))
             if step == 0:
                 raise Uneval("loop step")
             vals = []
@@ -660,15 +672,15 @@ class View(Nd):
         spec = []
         for s in self.spec:
             if s[0] == "pt":
-                spec.append(("pt", s[1].subst(mapping)))
+                spec.append(("pt", lsubst(s[1], mapping)))
             elif s[0] == "ptw":
-                spec.append(("ptw", s[1].subst(mapping), s[2].subst(mapping)))
+                spec.append(("ptw", lsubst(s[1], mapping), lsubst(s[2], mapping)))
             elif s[0] == "sl":
-                spec.append(("sl", s[1], s[2].subst(mapping)))
+                spec.append(("sl", s[1], lsubst(s[2], mapping)))
             else:
-                spec.append(("ga", s[1], Vec(s[2].base, s[2].off.subst(mapping), s[2].sorted, s[2].neg)))
-        v = View(self.base, spec, [x.subst(mapping) for x in self.shape])
-        v.raw = {vd: (lo.subst(mapping), hi.subst(mapping), rl, rh, dim.subst(mapping)) for vd, (lo, hi, rl, rh, dim) in self.raw.items()}
+                spec.append(("ga", s[1], Vec(s[2].base, s[2].lsubst(off, mapping), s[2].sorted, s[2].neg)))
+        v = View(self.base, spec, [lsubst(x, mapping) for x in self.shape])
+        v.raw = {vd: (lsubst(lo, mapping), lsubst(hi, mapping), rl, rh, lsubst(dim, mapping)) for vd, (lo, hi, rl, rh, dim) in self.raw.items()}
         return v
 
     def __repr__(self):
@@ -1020,6 +1032,28 @@ class Picks:
         return "Picks(%r @ %r)" % (self.base, self.positions)
 
 
+class DictV:
+    """A dict literal with constant (or tuple-of-constant) keys."""
+
+    def __init__(self, items):
+        self.items = dict(items)
+
+    def __repr__(self):
+        return "DictV(%d keys)" % len(self.items)
+
+
+def const_key(v):
+    if isinstance(v, K):
+        return ("k", v.v)
+    lv = as_lin_val(v)
+    if lv is not None and lv.is_const():
+        return ("k", int(lv.const))
+    if isinstance(v, Tup):
+        ks = [const_key(x) for x in v.items]
+        return ("t",) + tuple(ks) if all(k is not None for k in ks) else None
+    return None
+
+
 class EnumV:
     def __init__(self, seq):
         self.seq = seq
@@ -1120,6 +1154,21 @@ class AInterp(Interp):
             if attr in ("loc", "iloc"):
                 return Opq("attr:" + attr, [base])
         return super().getattr(base, attr, e, st, frame)
+
+    def decide(self, test, st, frame):
+        r = super().decide(test, st, frame)
+        if r is None and not isinstance(test, (ast.BoolOp, ast.Compare)) and not (isinstance(test, ast.UnaryOp) and isinstance(test.op, ast.Not)):
+            # truthiness of an integer expression (``if len(x):``, ``if not n:``) from the facts on the trace
+            try:
+                v = as_lin_val(self.ev(test, st, frame))
+            except Exception:
+                v = None
+            if v is not None:
+                if v.is_const():
+                    return v.const != 0
+                if entails(st.facts, 1 - v) or entails(st.facts, v + 1):
+                    return True
+        return r
 
     def _is(self, a, b):
         for x, y in ((a, b), (b, a)):
@@ -1226,6 +1275,14 @@ class AInterp(Interp):
             if spec is None:
                 return Opq("nd-index", [base])
             return self.make_view(base, spec)
+        if isinstance(base, DictV) and not isinstance(e.slice, ast.Slice):
+            ck = const_key(self.ev(e.slice, st, frame))
+            if ck is None:
+                return Opq("dict-index", [base])
+            if ck in base.items:
+                return base.items[ck]
+            from ..absint import AlwaysRaises
+            raise AlwaysRaises("KeyError")
         if isinstance(base, ListV):
             idx = as_lin_val(self.ev(e.slice, st, frame)) if not isinstance(e.slice, ast.Slice) else None
             if idx is not None:
@@ -1248,7 +1305,7 @@ class AInterp(Interp):
                 and isinstance(e.slice, ast.Slice) and e.slice.step is None:
             lo = as_lin_val(self.ev(e.slice.lower, st, frame)) if e.slice.lower is not None else None
             hi = as_lin_val(self.ev(e.slice.upper, st, frame)) if e.slice.upper is not None else None
-            return base.args[0].loc_slice(lo, hi)
+            return base.args[0].loc_slice(lo, hi, st.facts)
         return super().ev_Subscript(e, st, frame)
 
     def index(self, base, idx, e, st, frame):
@@ -1329,6 +1386,27 @@ class AInterp(Interp):
             seq, enum = it.seq, True
         elif isinstance(it, ListV):
             seq = it
+        if enum and isinstance(seq, (Vec, FHV)):
+            vec = seq.vec if isinstance(seq, FHV) else seq
+            self.uid += 1
+            var = Lin.sym("idx#%d" % self.uid)
+            rng = Rng(ZERO, vec_len(vec))
+            body_st = st.copy()
+            body_st.facts.add_cmp(rng.lo, "<=", var, "loop range lower bound")
+            body_st.facts.add_cmp(var, "<=", rng.hi - 1, "loop range upper bound")
+            q_ = Q(body_st.facts)
+            elem = q_.vec_elem(vec, var)
+            body_st.loops = list(st.loops) + [LoopCtx(var, rng, node)]
+            self.assign(node.target, Tup([var, elem]), body_st, frame)
+            after = st.copy()
+            self._havoc(node.body, after)
+            results = []
+            for s_, o_ in self.block(node.body, body_st, frame):
+                if o_[0] == "return":
+                    results.append((s_, o_))
+            if node.orelse:
+                return results + self.block(node.orelse, after, frame)
+            return results + [(after, ("fall",))]
         if seq is None or not isinstance(seq, ListV):
             return super()._for(node, st, frame)
         n = list_len(seq)
@@ -1352,6 +1430,48 @@ class AInterp(Interp):
         if node.orelse:
             return results + self.block(node.orelse, after, frame)
         return results + [(after, ("fall",))]
+
+    def _exec_stmt(self, node, st, frame):
+        if isinstance(node, ast.While):
+            f_ = self._counting_while(node, st, frame)
+            if f_ is not None:
+                res = self._for(f_, st, frame)
+                for s_, o_ in res:
+                    if o_[0] == "fall":
+                        s_.env[f_.target.id] = Opq("loop-var-after:" + f_.target.id)
+                return res
+        return super()._exec_stmt(node, st, frame)
+
+    def _counting_while(self, node, st, frame):
+        """``while i < hi: body; i += 1`` with ``i`` an integer set before the loop -> the equivalent ``for i in range(i, hi)``."""
+        t = node.test
+        if node.orelse or not (isinstance(t, ast.Compare) and len(t.ops) == 1 and isinstance(t.ops[0], ast.Lt) and isinstance(t.left, ast.Name)):
+            return None
+        v = t.left.id
+        if as_lin_val(st.env.get(v)) is None or not node.body:
+            return None
+        last = node.body[-1]
+        if not (isinstance(last, ast.AugAssign) and isinstance(last.op, ast.Add) and isinstance(last.target, ast.Name) and last.target.id == v
+                and isinstance(last.value, ast.Constant) and last.value.value == 1):
+            return None
+        rest = node.body[:-1]
+        for b_ in rest:
+            for n_ in ast.walk(b_):
+                if isinstance(n_, ast.Name) and n_.id == v and isinstance(n_.ctx, (ast.Store, ast.Del)):
+                    return None
+                if isinstance(n_, (ast.Break, ast.Continue)):
+                    return None
+        # the bound must not be rebound inside the loop
+        bound_names = {n_.id for n_ in ast.walk(t.comparators[0]) if isinstance(n_, ast.Name)}
+        for b_ in node.body:
+            for n_ in ast.walk(b_):
+                if isinstance(n_, ast.Name) and n_.id in bound_names and isinstance(n_.ctx, ast.Store):
+                    return None
+        rng = ast.Call(func=ast.Name(id="range", ctx=ast.Load()), args=[ast.Name(id=v, ctx=ast.Load()), t.comparators[0]], keywords=[])
+        f_ = ast.For(target=ast.Name(id=v, ctx=ast.Store()), iter=rng, body=rest or [ast.Pass()], orelse=[])
+        ast.copy_location(f_, node)
+        ast.fix_missing_locations(f_)
+        return f_
 
     def _for_unrolled(self, node, items, st, frame):
         """A loop over a literal tuple / list: every iteration is interpreted in order, with break / continue / for-else."""
@@ -1414,6 +1534,25 @@ class AInterp(Interp):
             return ListV(e)
         return super().ev_List(e, st, frame)
 
+    def ev_Dict(self, e, st, frame):
+        items = {}
+        for k_, v_ in zip(e.keys, e.values):
+            if k_ is None:
+                return Opq("expr:Dict")
+            ck = const_key(self.ev(k_, st, frame))
+            if ck is None:
+                return Opq("expr:Dict")
+            items[ck] = self.ev(v_, st, frame)
+        return DictV(items)
+
+    def ev_Name(self, e, st, frame):
+        if e.id not in st.env:
+            sym = self.repo.resolve_name(frame.module, e.id)
+            if sym is not None and sym.kind == "const" and isinstance(sym.target, (ast.Dict, ast.Tuple)) and sym.module is not None:
+                # module-level literal table
+                return self.ev(sym.target, State(), Frame(sym.module, frame.func, None, None, frame.depth))
+        return super().ev_Name(e, st, frame)
+
     def builtin_call(self, e, fname, args, kwargs, st, frame):
         ext = self.ext_name(fname, frame)
         r = self.numpy_call(ext, e, args, kwargs, st, frame)
@@ -1446,12 +1585,14 @@ class AInterp(Interp):
         return [l] if l is not None else None
 
     def numpy_call(self, ext, e, args, kwargs, st, frame):
-        if ext in ("numpy.zeros", "numpy.empty", "numpy.ones") and args:
-            shp = self.shape_arg(args[0])
+        if ext in ("numpy.zeros", "numpy.empty", "numpy.ones") and (args or "shape" in kwargs):
+            shp = self.shape_arg(args[0] if args else kwargs["shape"])
             if shp is None:
                 return Opq(ext, args)
             b = Buf(shp, {"numpy.zeros": 0, "numpy.ones": 1}.get(ext, "uninit"), e)
             b.dtype = kwargs.get("dtype", args[1] if len(args) > 1 else None)
+            if set(kwargs) - {"dtype", "shape"}:
+                return Opq(ext, args)
             self.bufs.append(b)
             return b
         if ext == "numpy.full" and len(args) >= 2:
@@ -1705,10 +1846,15 @@ class Ser(Nd):
     def cell(self, coords, q, **kw):
         return self.src.cell(coords, q)
 
-    def loc_slice(self, lo, hi):
-        """Inclusive label slice (positions = label - first)."""
+    def loc_slice(self, lo, hi, facts=None):
+        """Inclusive label slice (positions = label - first); labels outside the index are clamped as pandas does."""
         lo_p = (lo - self.first) if lo is not None else ZERO
         hi_p = (hi - self.first + 1) if hi is not None else self.shape[0]
+        if facts is not None:
+            if not lo_p.is_const() and entails(facts, lo_p):
+                lo_p = ZERO  # the slice starts before the first label
+            if not (hi_p - self.shape[0]).is_const() and entails(facts, self.shape[0] - hi_p):
+                hi_p = self.shape[0]
         spec = [("sl", 0, lo_p)] + [("sl", d, ZERO) for d in range(1, self.ndim)]
         v = View(self.src, spec, [hi_p - lo_p] + list(self.shape[1:]))
         v.clamp = (lo_p, hi_p, self.shape[0])  # pandas clamps: needs 0 <= lo_p and hi_p <= n
